@@ -197,5 +197,42 @@ func staleHandleScenario(c *sup.Ctx) {
 		c.Viol([]string{"C11"}, "stale-handle|other-collection-feed|"+follow,
 			fmt.Sprintf("after handle A dropped %s.%s (%s), calls made by handle B through the DataStore of the dropped collection produced %d event(s) on the feeds of other collections", victim.Scope, victim.Collection, follow, n), detail)
 	}
+	// the collection was created again under the same name: handle B, which still caches the first incarnation, drops
+	// it by name. If the call reports success the collection must be gone for everybody, and creating it once more
+	// must yield an empty collection
+	if follow == "recreate-same" {
+		derr := func() (err error) {
+			defer func() {
+				if p := recover(); p != nil {
+					err = fmt.Errorf("panic: %v", p)
+				}
+			}()
+			return b.DropDataStore(victim)
+		}()
+		c.Count("drops_through_a_stale_handle", 1)
+		if derr == nil {
+			if fresh, oerr := rosmar.OpenBucket(url, name, rosmar.ReOpenExisting); oerr == nil {
+				full := victim.Scope + "." + victim.Collection
+				if list, lerr := fresh.ListDataStores(); lerr == nil {
+					for _, n := range list {
+						if n.ScopeName()+"."+n.CollectionName() == full {
+							c.Viol([]string{"C11"}, "stale-handle|drop-reported-but-listed",
+								fmt.Sprintf("DropDataStore(%s) through handle B (which still cached the collection's first incarnation) returned nil, but the collection is still listed", full), detail)
+						}
+					}
+				}
+				if again := get(fresh, victim); again != nil {
+					for _, k := range keys {
+						if raw, _, gerr := again.GetRaw(k); gerr == nil {
+							c.Viol([]string{"C11"}, "stale-handle|recreated-not-empty",
+								fmt.Sprintf("after DropDataStore(%s) through handle B returned nil, creating the collection again shows key %s = %q: the drop did not remove the collection's documents", full, k, raw), detail)
+							break
+						}
+					}
+				}
+				fresh.Close(ctx)
+			}
+		}
+	}
 	c.Sample(detail)
 }
